@@ -308,7 +308,7 @@ theorem writeDecimal_accepted (feats : Features) (fmt : Format) (wo : WOpts) (po
       grammarFloatComplete feats fmt po (signBytes (mantSign feats fmt neg) ++ writeDecimal fmt feats ds sci wo) =
         .num l (signBytes (mantSign feats fmt neg) ++ writeDecimal fmt feats ds sci wo).length ∧
       l.neg = neg ∧
-      DigitsForm l.intDigits l.fracDigits l.exp (truncateAndRound ds wo).1
+      DigitsForm l.intDigits l.fracDigits l.exp (keptOf fmt feats ds sci wo)
         (sci + (if (truncateAndRound ds wo).2 then 1 else 0)) := by
   have hy := synFacts_of_valid feats fmt hv
   have hsd := shapeOf_digits fmt feats ds sci wo hin hmx
